@@ -8,6 +8,7 @@ import (
 	"runtime"
 	"sort"
 	"sync"
+	"time"
 
 	"reduction.dev/reduction/dkv"
 	"reduction.dev/reduction/dkv/recovery"
@@ -646,4 +647,167 @@ func kfOldInstanceGC(c *lib.Ctx) {
 	c.SetSig(true, "kf-old-instance-gc")
 	c.Sample(ops)
 	runtime.KeepAlive(redeployed)
+}
+
+// ---------------------------------------------------------------- late ownership answers
+
+// slowOwn is a DataOwnership whose neighbours take their time: every question is announced and answered only
+// when the case allows it ("nobody else needs the table").
+type slowOwn struct {
+	started chan string
+	answer  chan struct{}
+	once    sync.Once
+}
+
+func (s *slowOwn) OwnsKey([]byte) bool { return true }
+func (s *slowOwn) ExclusivelyOwnsTable(uri string, _, _ []byte) (bool, error) {
+	select {
+	case s.started <- uri:
+	default:
+	}
+	<-s.answer
+	return true, nil
+}
+func (s *slowOwn) letAnswer() { s.once.Do(func() { close(s.answer) }) }
+
+// c09LateAnswer: the table cleanup of a collected database asks the neighbours whether it may delete a table
+// of the checkpoint it was restored from; while the (slow) answer is on its way another database of the same
+// process opens that still retained checkpoint. The late "nobody needs it" must not delete files the new
+// database and the retained checkpoint reference.
+func c09LateAnswer(c *lib.Ctx) {
+	r := c.R
+	var gfs *lib.GateFS
+	local := r.Intn(3) == 0
+	if local {
+		gfs = lib.NewGateFS(storage.NewLocalFilesystem(c.Dir + "/late"))
+	} else {
+		gfs = lib.NewGateFS(storage.NewMemoryFilesystem().WithWorkingDir("/late"))
+	}
+	opts := dkv.DBOptions{Logger: quietLog, FileSystem: gfs, MemTableSize: uint64(40 + r.Intn(300)), L0TableNumCompactionTrigger: 999}
+	var ops []string
+	logOp := func(f string, a ...any) { ops = append(ops, fmt.Sprintf(f, a...)) }
+	wit := func() map[string]any {
+		return map[string]any{"ops": ops, "local_fs": local, "memtable": opts.MemTableSize}
+	}
+	c.OnPanic = func() any { return wit() }
+
+	first := dkv.Open(opts, nil)
+	n := 10 + r.Intn(40)
+	model := map[string]string{}
+	for i := 0; i < n; i++ {
+		k, v := fmt.Sprintf("k%03d", r.Intn(60)), fmt.Sprintf("v%d-padding-padding", i)
+		first.Put([]byte(k), []byte(v))
+		model[k] = v
+	}
+	logOp("first: %d puts", n)
+	lib.DKVIdle(watchdog)
+	lib.Must(first.WaitOnTasks())
+	h, err := first.Checkpoint(1)()
+	lib.Must(err)
+	lib.DKVIdle(watchdog)
+	tables := tablesOfHandle(gfs, h)
+	logOp("first.Checkpoint(1): %d tables", len(tables))
+
+	slow := &slowOwn{started: make(chan string, 256), answer: make(chan struct{})}
+	defer slow.letAnswer()
+	o2 := opts
+	o2.DataOwnership = slow
+	second := dkv.Open(o2, []recovery.CheckpointHandle{h})
+	for k := range model {
+		if _, err := second.Get([]byte(k)); err != nil {
+			c.Fail("get-lost", wit(), "second.Get(%q): %v", k, err)
+		}
+		break
+	}
+	lib.DKVIdle(watchdog)
+	logOp("second = Open([checkpoint 1]) with slow neighbours")
+	// The writer's object goes first (its successor is open, so its table cleanups delete nothing); the case
+	// only goes on once it has really been collected and its cleanups have run.
+	firstGone := make(chan struct{})
+	runtime.AddCleanup(first, func(ch chan struct{}) { close(ch) }, firstGone)
+	first = nil
+	collected := false
+	for dl := time.Now().Add(3 * time.Second); !collected && time.Now().Before(dl); {
+		runtime.GC()
+		select {
+		case <-firstGone:
+			collected = true
+		case <-time.After(300 * time.Microsecond):
+		}
+	}
+	if !collected {
+		c.Feat("writer_object_not_collected", 1)
+		c.SetSig(false, "writer not collected")
+		runtime.KeepAlive(second)
+		return
+	}
+	lib.GCSettle()
+	logOp("drop first; GC until it is collected and its cleanups have run")
+	select {
+	case uri := <-slow.started:
+		c.Fail("cleanup-asked-while-referenced", wit(), "the table cleanup of the collected writer asked the neighbours about %s although the database opened from its checkpoint is alive", uri)
+	default:
+	}
+	runtime.KeepAlive(second) // not before this point: its cleanups block on the slow answer
+	second = nil
+	asked := false
+	for dl := time.Now().Add(5 * time.Second); !asked && time.Now().Before(dl) && len(tables) > 0; {
+		runtime.GC()
+		select {
+		case <-slow.started:
+			asked = true
+		case <-time.After(500 * time.Microsecond):
+		}
+	}
+	logOp("drop second; GC until its table cleanup asks the neighbours (asked=%v)", asked)
+	if asked {
+		c.Feat("cleanups_waiting_for_an_answer", 1)
+	}
+	third := dkv.Open(opts, []recovery.CheckpointHandle{h})
+	logOp("third = Open([checkpoint 1]) while the answer is outstanding")
+	if r.Intn(2) == 0 {
+		for k, v := range model {
+			got, err := third.Get([]byte(k))
+			if err != nil || string(got.Value()) != v {
+				c.Fail("get-lost", wit(), "third.Get(%q) = %v, %v before the answer arrived; written %q", k, got, err, v)
+			}
+		}
+	}
+	slow.letAnswer()
+	logOp("neighbours answer: nobody needs the tables")
+	for i := 0; i < 6; i++ {
+		runtime.GC()
+		time.Sleep(300 * time.Microsecond)
+	}
+	lib.GCSettle()
+	// oracle: the retained checkpoint's files exist, the live database reads everything, the checkpoint restores
+	for _, uri := range append(tables, h.URI) {
+		if ok, how := gfs.Exists(uri); !ok {
+			c.Fail("referenced-file-deleted", wit(), "%s is missing (%s); it is referenced by the retained checkpoint 1 and by the live database opened from it", uri, how)
+		}
+	}
+	check := func(db *dkv.DB, name string) {
+		defer func() {
+			if p := recover(); p != nil {
+				c.Fail("referenced-file-deleted", wit(), "%s: reading panicked: %v", name, p)
+			}
+		}()
+		for k, v := range model {
+			got, err := db.Get([]byte(k))
+			if err != nil || string(got.Value()) != v {
+				c.Fail("get-lost", wit(), "%s.Get(%q) = %v, %v; written %q", name, k, got, err, v)
+			}
+		}
+	}
+	check(third, "third")
+	fourth := dkv.Open(opts, []recovery.CheckpointHandle{h})
+	check(fourth, "fourth (opened from the retained checkpoint afterwards)")
+	lib.DKVIdle(watchdog)
+	c.Feat("tables_of_checkpoint", int64(len(tables)))
+	c.SetSig(asked, local, opts.MemTableSize, n)
+	if c.Index < 2 {
+		c.Sample(ops)
+	}
+	runtime.KeepAlive(third)
+	runtime.KeepAlive(fourth)
 }
